@@ -108,7 +108,7 @@ def scenarios(ctx):
                 continue
             if quick:
                 b = [{"f": 1}, {"r": 1}]
-            elif cap == 3 and pname == "get":
+            elif cap >= 2:
                 b = [{"f": 1, "r": 1}, {"p": 1}]
             else:
                 b = [{"f": 1}, {"r": 1}, {"p": 1}]
@@ -125,8 +125,8 @@ def scenarios(ctx):
                     if pname == "pos" and (quick or o != 3):
                         continue
                     b = [{"r": 1}, {"p": 1}]
-                    if (not quick and cap == 3 and group and o == 3 and basel == "net" and pname == "get"
-                            and cname in ("absent", "inside", "beyond")):
+                    if (not quick and cap == 3 and group and o == 3 and pname == "get"
+                            and cname in ("absent", "inside", "beyond", "below")):
                         b = [{"r": 1, "f": 1}, {"p": 1, "f": 1}]  # a fault on the lookup and the seek in the same run
                     out.append((f"S/{name}/{basel}/seek{o}/{pname}", dict(base, program=prog, baseline=basel, inject_seek=[0, o]), b))
     return out
